@@ -21,7 +21,7 @@
 (*   exhaustive tier only in that roots / pairs are sampled.                  *)
 EXTENDS Hierarchy, TraceBase
 
-tvars == <<cover, meas, ixs, ixc, ixm, ixn, l, sid, used, failed>>
+tvars == <<cover, meas, mlab, ixs, ixc, ixm, ixn, l, sid, used, failed>>
 N300 == 1..300      \* node universe of the large random posets (a .cfg cannot spell it)
 
 ToSet(s) == {s[i] : i \in DOMAIN s}
@@ -74,21 +74,24 @@ ObsOK ==
          ELSE "ans" \in DOMAIN Ev.obs /\ AnsOK(Ev.obs.ans)
 
 TInit == HInit({}, [n \in Nodes |-> NoM]) /\ TBInit
-Blank == cover' = {} /\ meas' = [n \in Nodes |-> NoM] /\ ixs' = "none" /\ ixc' = {} /\ ixm' = [n \in Nodes |-> NoM] /\ ixn' = {}
+Blank == cover' = {} /\ meas' = [n \in Nodes |-> NoM] /\ mlab' = Nodes /\ ixs' = "none" /\ ixc' = {} /\ ixm' = [n \in Nodes |-> NoM] /\ ixn' = {}
 T_Reset == ResetBook /\ Blank
 T_Fail == FailBook /\ Blank
 
 Ok == Ev.res = "ok"
-T_Graph == IsEv("Graph") /\ Ok /\ SetGraph(EdgeSet(Ev.cover), MeasFn(Ev.meas)) /\ ObsOK /\ Same
+\* Ev.mlab: the nodes carrying the measure's label (absent = unrestricted measure)
+T_Graph == /\ IsEv("Graph") /\ Ok
+           /\ SetGraph(EdgeSet(Ev.cover), MeasFn(Ev.meas), IF "mlab" \in DOMAIN Ev THEN ToSet(Ev.mlab) ELSE Nodes)
+           /\ ObsOK /\ Same
 
 \* small graphs: acyclicity by closure; large ones: by the numbering certificate
 \* Ev.nodes = the nodes the real poset holds
 BuildEv ==
     IF "certs" \in DOMAIN Ev.obs
     THEN /\ \A e \in cover : e[1] > e[2]
-         /\ ixs' = "fresh" /\ ixc' = cover /\ ixm' = meas /\ ixn' = ToSet(Ev.nodes)
+         /\ ixs' = "fresh" /\ ixc' = cover /\ ixm' = Eff(meas, mlab) /\ ixn' = ToSet(Ev.nodes)
          /\ InPoset(cover) \subseteq ixn'
-         /\ UNCHANGED <<cover, meas>>
+         /\ UNCHANGED <<cover, meas, mlab>>
     ELSE Build(ToSet(Ev.nodes))
 T_Build == IsEv("Build") /\ Ok /\ BuildEv /\ ObsOK /\ Same
 T_Rebuild == IsEv("Rebuild") /\ Ok /\ ixs # "none" /\ BuildEv /\ ObsOK /\ Same
@@ -96,11 +99,8 @@ T_Rebuild == IsEv("Rebuild") /\ Ok /\ ixs # "none" /\ BuildEv /\ ObsOK /\ Same
 \* res "stale" at the api layer = update_measure returned false
 T_UpdateMeasure ==
     /\ IsEv("UpdateMeasure") /\ Ev.res \in {"ok", "stale"}
-    /\ \/ /\ \E absorbed \in BOOLEAN : UpdateMeasure(Ev.node, Ev.v, absorbed)
-          /\ ObsOK /\ Same
-       \/ /\ Ev.v = NoM
-          /\ KF_C28_RemoveNotPropagated(Ev.node)
-          /\ ObsOK /\ KF("KF_C28_RemoveNotPropagated")
+    /\ \E absorbed \in BOOLEAN : UpdateMeasure(Ev.node, Ev.v, absorbed)
+    /\ ObsOK /\ Same
 T_AddEdge == IsEv("AddEdge") /\ Ok /\ WriteCoverEdge(TRUE, <<Ev.c, Ev.p>>) /\ ObsOK /\ Same
 T_DelEdge == IsEv("DelEdge") /\ Ok /\ WriteCoverEdge(FALSE, <<Ev.c, Ev.p>>) /\ ObsOK /\ Same
 
